@@ -44,7 +44,7 @@ ASSUMPTIONS = [
     "packages are loaded without the experiment-level validation step (it calls the code under test and would hide "
     "the result); the FlowIR validation performed while loading is kept and must accept every generated package",
 ]
-TIERS = {"quick": {"shards": 8, "budget": 100}, "thorough": {"shards": 16, "budget": 1500}}
+TIERS = {"quick": {"shards": 8, "budget": 150}, "thorough": {"shards": 16, "budget": 1500}}
 
 
 def _sig_for(case, group, feats, got, exp):
@@ -163,7 +163,7 @@ def _check_group(case, g, group, graph, inst, ctx: Ctx):
 
 
 def shard(ctx: Ctx):
-    explore(ctx, "resolve", G.cases(), check_resolve, ctx.n(2400, 80000), batch=150)
+    explore(ctx, "resolve", G.cases(), check_resolve, ctx.n(2000, 60000), batch=125)
 
 
 def replay(sub, case, ctx: Ctx):
